@@ -10,6 +10,9 @@ Mirrors `core/circuitbreaker/circuit_breaker.go`, `slot.go`, `stat_slot.go`:
 * `checkPass`    = `checkPass` in `slot.go` (breakers of the resource in rule order, early exit)
 * `rollback`     = the `WhenExit` hook registered by `fromOpenToHalfOpen`, run by `Entry.Exit` of a
                    *blocked* entry: `HalfOpen → Open`, deadline and probe counter untouched
+* `reuseIdx` / `build` = `calculateReuseIndexFor` / `BuildResourceCircuitBreaker`; `Op.load` / `Op.loadRes` =
+                   `LoadRules` / `LoadRulesOfResource` at any point of a history (statistics are reused per the
+                   code's rules; a statistic is a value owned by exactly one breaker)
 * `completeAll`  = `MetricStatSlot.OnCompleted`: **one** `OnRequestComplete` per breaker per completed entry —
                    `ctx.Input.BatchCount` (`WithBatchCount(n)`, any `n` incl. 0) is *not* read by the breaker
                    slots; `Op.entry` carries it and `step` ignores it
@@ -48,6 +51,8 @@ structure Rule where
   buckets : Nat          -- `StatSlidingWindowBucketCount` as given
   maxRt : Nat
   probeNum : Nat
+  /-- bit pattern of `Threshold` (only compared for equality, by the rule manager's reuse calculus) -/
+  thrBits : Nat := 0
   /-- the trip predicate on `(bad, total)` of the window: `slow/total` resp. `err/total` `> T` or within
       `1e-8` of `T` (float64), `err ≥ uint64(T)` for the error count.  A parameter of every theorem;
       the driver instantiates it with Lean `Float` (DESIGN 3.3). -/
@@ -57,6 +62,21 @@ structure Rule where
 def Rule.n (r : Rule) : Nat := if r.buckets = 0 ∨ r.statI % r.buckets ≠ 0 then 1 else r.buckets
 /-- bucket length of the breaker's leap array (`NewLeapArray`) -/
 def Rule.L (r : Rule) : Nat := r.statI / r.n
+
+/-- `old.isEqualsTo(new)` (`rule.go`): `isEqualsToBase` plus the strategy's own fields; the `Id` is not compared.
+    The code compares thresholds with `util.Float64Equals` (1e-8 tolerance); here bit patterns are compared, which
+    is the same as long as two thresholds of one history are either identical or further apart than the tolerance
+    (the generator's 1/1000 grid; rule equality as such belongs to C13/C14). -/
+def Rule.eqv (o n : Rule) : Bool :=
+  o.res == n.res && o.kind == n.kind && o.retryMs == n.retryMs && o.minReq == n.minReq && o.statI == n.statI
+    && o.buckets == n.buckets && o.probeNum == n.probeNum
+    && (match n.kind with
+        | .slow => o.maxRt == n.maxRt && o.thrBits == n.thrBits
+        | _ => o.thrBits == n.thrBits)
+
+/-- `old.isStatReusable(new)` -/
+def Rule.statReusable (o n : Rule) : Bool :=
+  o.res == n.res && o.kind == n.kind && o.statI == n.statI && o.buckets == n.buckets
 
 /-- the `snapshot` argument of `OnTransformToOpen` -/
 inductive Snap
@@ -83,6 +103,8 @@ structure WinOps (W : Type) where
   record : W → Nat → Cnt → Option (W × Cnt)
   /-- `resetMetric()` -/
   reset : W → Nat → W
+  /-- `sbase.NewLeapArray(bucketCount, interval, …)` at clock reading `now` -/
+  fresh : Nat → W
 
 structure Brk (W : Type) where
   id : Nat
@@ -183,6 +205,40 @@ structure Sys (W : Type) where
   now : Nat := 0
   brs : List (Brk W) := []
   live : List Live := []
+  /-- next unused breaker identity (the harness numbers the valid rules of all loads consecutively) -/
+  next : Nat := 0
+
+/-! ## rule (re)loading: `onRuleUpdate` / `onResourceRuleUpdate` / `BuildResourceCircuitBreaker` -/
+
+/-- `calculateReuseIndexFor`: the first equal old breaker wins and ends the scan; otherwise the first
+    stat-reusable one seen before that.  Returns `(equalIdx, reuseStatIdx)`.  (Both predicates compare the
+    resource, so scanning the breakers of all resources is the same as scanning those of the rule's resource.) -/
+def reuseIdx (r : Rule) : List (Brk W) → Nat → Option Nat → Option Nat × Option Nat
+  | [], _, reuse => (none, reuse)
+  | c :: cs, i, reuse =>
+    if c.rule.eqv r then (some i, reuse)
+    else if c.rule.statReusable r && reuse.isNone then reuseIdx r cs (i+1) (some i)
+    else reuseIdx r cs (i+1) reuse
+
+/-- `BuildResourceCircuitBreaker`: the new rules in order, each consuming at most one old breaker —
+    an equal one is kept as it is (object, state, deadline, probe counter, counters, bound *old* rule);
+    otherwise a new breaker (Closed, no deadline) is generated, bound to the statistic of the first
+    stat-reusable old breaker if there is one (`new…CircuitBreakerWithStat`), which is then removed from
+    the candidates, else to a fresh statistic.  Rule `i` of the list gets identity `next + i` (unused if
+    the old breaker is kept). -/
+def build (ops : Rule → WinOps W) (now : Nat) : List Rule → List (Brk W) → Nat → List (Brk W)
+  | [], _, _ => []
+  | r :: rs, old, next =>
+    match reuseIdx r old 0 none with
+    | (some i, _) =>
+      match old[i]? with
+      | some c => c :: build ops now rs (old.eraseIdx i) (next+1)
+      | none => build ops now rs old (next+1)                 -- unreachable
+    | (none, some j) =>
+      match old[j]? with
+      | some c => { id := next, rule := r, w := c.w } :: build ops now rs (old.eraseIdx j) (next+1)
+      | none => build ops now rs old (next+1)                 -- unreachable
+    | (none, none) => { id := next, rule := r, w := (ops r).fresh now } :: build ops now rs old (next+1)
 
 inductive Op
   | clock (t : Nat)
@@ -191,7 +247,10 @@ inductive Op
       (`Sentinel.C03.batch_irrelevant`) -/
   | entry (id : Nat) (res : String) (batch : Nat := 1)
   | exit (id : Nat) (err : Bool)
-deriving DecidableEq, Repr
+  /-- `circuitbreaker.LoadRules(rules)` (the valid rules, in list order); every resource is rebuilt -/
+  | load (rules : List Rule)
+  /-- `circuitbreaker.LoadRulesOfResource(res, rules)` (valid rules, all naming `res`); `[]` clears the resource -/
+  | loadRes (res : String) (rules : List Rule)
 
 /-- what one op shows: the decision of an `entry` (`some none` = pass, `some (some k)` = blocked by
     breaker `k`) and the listener callbacks it caused -/
@@ -224,6 +283,35 @@ def step (ops : Rule → WinOps W) (s : Sys W) : Op → Sys W × Out
   | .clock t => ({ s with now := t }, {})
   | .entry id res _ => doEntry s id res
   | .exit id err => doExit ops s id err
+  | .load rules =>
+    ({ s with brs := build ops s.now rules s.brs s.next, next := s.next + rules.length }, {})
+  | .loadRes res rules =>
+    -- `oldResCbs = breakers[res]`; the other resources keep their breakers
+    ({ s with brs := s.brs.filter (fun b => b.rule.res != res)
+                      ++ build ops s.now rules (s.brs.filter fun b => b.rule.res == res) s.next,
+              next := s.next + rules.length }, {})
+
+/-- the rules an op loads -/
+def Op.rules : Op → List Rule
+  | .load rs => rs
+  | .loadRes _ rs => rs
+  | _ => []
+
+/-- ids of the old breakers a (re)load consumes, in the order of the new rules (same skeleton as `build`):
+    `Sentinel.C03.build_consumes_once` shows that no old breaker — hence no statistic — is handed out twice -/
+def donorIds : List Rule → List (Brk W) → List Nat
+  | [], _ => []
+  | r :: rs, old =>
+    match reuseIdx r old 0 none with
+    | (some i, _) =>
+      match old[i]? with
+      | some c => c.id :: donorIds rs (old.eraseIdx i)
+      | none => donorIds rs old
+    | (none, some j) =>
+      match old[j]? with
+      | some c => c.id :: donorIds rs (old.eraseIdx j)
+      | none => donorIds rs old
+    | (none, none) => donorIds rs old
 
 /-- outputs of a whole history -/
 def run (ops : Rule → WinOps W) (s : Sys W) : List Op → Sys W × List Out
@@ -244,11 +332,12 @@ def laReset (a : Arr Cnt) (now : Nat) : Arr Cnt :=
   { a with slots := a.slots.map fun s => if deprecated (a.n * a.L) now s.start then s else { s with val := 0 } }
 
 /-- the code-shaped store: the breaker's own leap array -/
-def laOps (_ : Rule) : WinOps (Arr Cnt) where
+def laOps (r : Rule) : WinOps (Arr Cnt) where
   record a now x :=
     let r := addAt a now x
     if r.2 then some (r.1, laTotal r.1 now) else none
   reset := laReset
+  fresh now := Sentinel.LA.mk r.n r.L now
 
 /-- first bucket start of the window of `n` buckets ending with the bucket of `now` -/
 def winLo (n L now : Nat) : Nat := cbs L now + L - n * L
@@ -261,6 +350,7 @@ def histOps (r : Rule) : WinOps (List (Nat × Cnt)) where
     let h1 := h ++ [(now, x)]
     some (h1, refW r.L h1 (winLo r.n r.L now) (cbs r.L now))
   reset _ _ := []
+  fresh _ := []
 
 /-- `newXxxCircuitBreaker(r)` at clock reading `now` -/
 def Brk.new (id : Nat) (r : Rule) (now : Nat) : Brk (Arr Cnt) :=
